@@ -39,7 +39,7 @@ WeakCores(dims, seed) ==
 WeakConfigs == {[weak |-> TRUE, dims |-> [k \in 1..d |-> 2], seed |-> seed, e |-> 3, steps |-> 2] : d \in 2..4, seed \in {1, 2}}
 WeakIsland(c) == [H |-> LocalSumFrom(Len(c.dims), c.seed, 1), x0 |-> WeakCores(c.dims, c.seed)]
 
-TdvpDims == IF Level = 1 THEN {<<2, 2>>, <<2, 2, 2>>, <<3, 2>>} ELSE {<<2>>, <<2, 2>>, <<2, 2, 2>>, <<3, 2>>, <<2, 3, 2>>, <<2, 2, 2, 2>>}
+TdvpDims == IF Level = 1 THEN {<<2>>, <<3>>, <<2, 2>>, <<2, 2, 2>>, <<3, 2>>} ELSE {<<2>>, <<2, 2>>, <<2, 2, 2>>, <<3, 2>>, <<2, 3, 2>>, <<2, 2, 2, 2>>}
 TdvpConfigs ==
     UNION {{[dims |-> dims, rg |-> rg, kind |-> kd[1], cplx |-> cplx, seed |-> seed, r0 |-> r0, e |-> kd[2], steps |-> n] :
               rg \in {1, 2}, kd \in {<<"ind", 6>>, <<"pd", 9>>}, cplx \in BOOLEAN, seed \in {1}, r0 \in RankProfiles(dims),
